@@ -11,6 +11,7 @@ package are folded over Model B here, and each line yields one canonical observa
 S, F are small integers; N, K, V, T are byte strings (`-` = nil, `h<hex>` otherwise); W is 0/1.
 -/
 import Gkv.Model.Store
+import Gkv.Model.Blocks
 open Std
 
 namespace Gkv
@@ -118,6 +119,18 @@ def showShape : Tree → String
   | .node l i a b r _ _ =>
     "(" ++ showShape l ++ " " ++ hexOf i.key ++ ":" ++ toString i.prio ++ "/" ++ toString a ++ "/" ++
       toString b ++ " " ++ showShape r ++ ")"
+
+/-- multiset of delivered keys, canonically ordered (the delivery order of the block visitors
+    depends on the mangler / on math/rand) -/
+def showKeysSorted (l : List Item) : String :=
+  let ks := (l.map (fun i => hexOf i.key)).toArray.qsort (· < ·)
+  toString ks.size ++ ":" ++ toString (fnv (",".intercalate ks.toList).toUTF8.toList).toNat
+
+/-- the i-th item of a `fill`: key `k%06d`, value = decimal i, priority = a fixed hash of i -/
+def fillItem (i : Nat) : Item :=
+  let ds := (toString i).toUTF8.toList
+  let key := (107 : UInt8) :: (List.replicate (6 - ds.length) (48 : UInt8) ++ ds)
+  ⟨key, ds, (i * 2654435761 + 12345) % 2147483648⟩
 
 /-! ### crash images -/
 
@@ -234,6 +247,25 @@ def stepTokens (w : World) : List String → World × String
   | ["len", s, n] => match s.toNat?, parseBytes n with
     | some s, some (some n) => withColl w s n fun _ c => (w, toString c.root.toList.length)
     | _, _ => (w, "bad-op")
+  | ["blocks", s, n, _, mg] => match s.toNat?, parseBytes n with
+    | some s, some (some n) => withColl w s n fun _ c =>
+      let mangle : List Bytes → List Bytes := if mg == "rev" then List.reverse else id
+      (match Tree.visitBlocks c.cmp.fn c.root mangle with
+       | none => (w, "err-blocks")
+       | some l => (w, showKeysSorted l))
+    | _, _ => (w, "bad-op")
+  | ["random", s, n] => match s.toNat?, parseBytes n with
+    | some s, some (some n) => withColl w s n fun _ c =>
+      (match Tree.visitRandom c.cmp.fn c.root id with
+       | none => (w, "err-blocks")
+       | some l => (w, showKeysSorted l))
+    | _, _ => (w, "bad-op")
+  | ["fill", s, n, cnt] => match s.toNat?, parseBytes n, cnt.toNat? with
+    | some s, some (some n), some cnt => withColl w s n fun st c =>
+      if st.readOnly then (w, "err-ro") else
+      let t := (List.range cnt).foldl (fun t i => Tree.setItem c.cmp.fn t (fillItem i)) c.root
+      (putColl w s st { c with root := t }, "ok")
+    | _, _, _ => (w, "bad-op")
   | ["evict", s, n, _] => match s.toNat?, parseBytes n with
     | some s, some (some n) => withColl w s n fun _ _ => (w, "ok")
     | _, _ => (w, "bad-op")
